@@ -997,3 +997,79 @@ def fd_zero_clause(vals):
     J = s.calc_jacobian(f)
     show(jacobian_finite=bool(np.all(np.isfinite(J))), case="Euler fluid at rest: momentum identically zero")
     return bool(np.all(np.isfinite(J)))
+
+
+# --------------------------------------------------------------------------------------
+# C07 / C08 : the real driver
+
+def step_time_clause(vals, integrator, kind):
+    import flowdyn.integration as ti, flowdyn.field as field
+    disc = _RecDisc(3)
+    s = getattr(ti, integrator)(_Mesh(3), disc)
+    f = field.fdata(_M(), _Mesh(3), [np.array([1.0, 0.5, 0.7])], t=0.25)
+    dt = 0.1 if kind == "scalar" else np.array([0.3, 0.1, 0.2])
+    s.step(f, dt)
+    show(integrator=integrator, kind=kind, time_after=f.time)
+    return close(f.time, 0.35)
+
+
+def _driver_problem(implicit=False, integrator=None, n=20):
+    import flowdyn.mesh as mesh, flowdyn.modeldisc as md, flowdyn.modelphy.convection as conv, flowdyn.field as field, flowdyn.integration as ti, flowdyn.xnum as xnum
+    msh = mesh.unimesh(ncell=n, length=1.0)
+    model = conv.model(1.0)
+    disc = md.fvm1d(model, msh, xnum.extrapol1())
+    q = 1.0 + 0.5 * np.sin(2 * np.pi * msh.centers())
+    cls = getattr(ti, integrator) if integrator else (ti.implicit if implicit else ti.explicit)
+    return msh, model, disc, field.fdata(model, msh, [q]), cls
+
+
+def driver_clause(vals, clause, stop="default", dtlocal=False, implicit=False, integrator=None):
+    """runs the real solve() on a small convection problem with save times placed as in the solver's
+    counterexample (fractions of one step) and checks the statement's clauses on what comes back"""
+    msh, model, disc, f0, cls = _driver_problem(implicit, integrator)
+    cfl = 0.5
+    dt = cfl * (1.0 / msh.ncell) / 1.0
+    t = num_or(vals, "t", 0.0)
+    md_ = num_or(vals, "mindt", 1.0)
+    a = (num_or(vals, "tsave_i", 0.2) - t) / md_ if md_ else 0.2
+    b = (num_or(vals, "tsave_i1", 0.5) - t) / md_ if md_ else 0.5
+    if clause in ("start", "start-only", "zero-step"):
+        tsv = [0.0] if clause == "start-only" else [0.0, 2.5 * dt]
+    elif clause == "dense" or not (0 <= a < b <= 1.0):
+        tsv = [0.2 * dt, 0.5 * dt, 0.7 * dt, 3.5 * dt]
+    else:
+        tsv = [a * dt, b * dt, 3.5 * dt]
+    if clause == "final-it":
+        s = cls(msh, disc)
+        r = s.solve(f0, cfl, stop={"maxit": 7})
+        show(returned=len(r), it=[x.it for x in r])
+        return len(r) == 1 and r[-1].it == 7
+    s = cls(msh, disc)
+    q0 = f0.data[0].copy()
+    res = s.solve(f0, cfl, tsv)
+    times = [x.time for x in res]
+    show(integrator=cls.__name__, tsave=tsv, returned_times=times, its=[x.it for x in res])
+    ok = len(res) == len(tsv) and close(times, tsv, rtol=1e-12) and all(np.all(np.isfinite(x.data[0])) for x in res)
+    ok = ok and bool(np.all(f0.data[0] == q0)) and f0.time == 0.0
+    # reference: forward partial step from the trajectory state before the save time
+    ref = cls(msh, disc)
+    Q = f0.copy()
+    k = 0
+    for ts in tsv:
+        while Q.time + dt < ts - 1e-14:
+            ref.step(Q, dt)
+            k += 1
+        side = Q.copy()
+        if ts - Q.time > 0:
+            cls(msh, disc).step(side, ts - Q.time)
+        if len(res) == len(tsv):
+            x = res[tsv.index(ts)]
+            if not close(x.data[0], side.data[0], rtol=1e-9):
+                show(save_time=ts, max_difference_to_forward_reference=float(np.max(np.abs(x.data[0] - side.data[0]))))
+                ok = False
+            if x.it != k:
+                show(save_time=ts, it=x.it, expected_it=k)
+                ok = False
+    if clause in ("start", "start-only", "zero-step") and len(res):
+        ok = ok and close(res[0].data[0], q0, rtol=1e-13)
+    return ok
